@@ -5,6 +5,7 @@ Reads one s-expression case per line (same syntax as coq/Extract/driver.ml), dri
 public mutwo API and prints one s-expression observation per line.
 """
 import sys
+import weakref
 import functools
 import copy
 import os
@@ -112,6 +113,33 @@ class Section(ce.Consecution):
         return type(self)(self.title, [], tempo=copy.deepcopy(self.tempo), tag=self.tag)
 
 
+class Staff(ce.Concurrence):
+    """a named simultaneity, `Staff(title, voices)`: like Section, rebuilt only through its own `empty_copy`"""
+
+    def __init__(self, title, iterable=(), **kwargs):
+        super().__init__(iterable, **kwargs)
+        self.title = title
+
+    def empty_copy(self):
+        return type(self)(self.title, [], tempo=copy.deepcopy(self.tempo), tag=self.tag)
+
+
+class Coloured(ce.Consecution, class_specific_side_attribute_tuple=("colour",)):
+    """a sequence with a declared side attribute (the documented way): every container made from it - slices, parts,
+    copies, sums - has to carry it too"""
+
+    def __init__(self, *args, colour=None, **kwargs):
+        super().__init__(*args, **kwargs)
+        self.colour = colour if colour is not None else []
+
+
+class Anchor:
+    pass
+
+
+_ANCHOR = Anchor()
+
+
 class BoxDuration(cp.abc.Duration):
     """a user-defined duration whose state is a nested mutable object, updated in place by the setter (a copy that is only
     shallow shares it)"""
@@ -156,9 +184,31 @@ def build(x):
         c = C(dur)
         if l != -1:
             c.name = l
+            if l % 2 == 0:
+                c.marks = [l]                       # a mutable parameter value of the leaf (its payload)
+            if l % 11 == 7:
+                c.ref = weakref.ref(_ANCHOR)        # not picklable with a TypeError: copy() takes its deepcopy fallback
         _ROOTS.append(c)
         return c
+    if int(x[1]) >= 1000:
+        # shared reference stream (pure operations only): containers with the same tag >= 1000 and the same content are ONE
+        # object referenced several times
+        key = ("container", sx.show(x))
+        if key in _DURPOOL:
+            return _DURPOOL[key]
     kids = [build(k) for k in x[3:]]
+    if int(x[1]) >= 1000:
+        r = (S if x[0] == "S" else P)(kids, tag=mk_tag(int(x[1])), tempo=mk_tempo(int(x[2])))
+        _DURPOOL[("container", sx.show(x))] = r
+        return r
+    if x[0] == "P" and len(kids) % 4 == 3:
+        r = Staff("a staff", kids, tag=mk_tag(int(x[1])), tempo=mk_tempo(int(x[2])))
+        _ROOTS.append(r)
+        return r
+    if x[0] == "S" and len(kids) % 4 == 2:
+        r = Coloured(kids, tag=mk_tag(int(x[1])), tempo=mk_tempo(int(x[2])), colour=["red"])
+        _ROOTS.append(r)
+        return r
     if x[0] == "S" and len(kids) % 4 == 3:
         # every fourth sequence (by its number of children) is a user subclass whose constructor takes a title first and
         # which therefore overrides the documented hook `empty_copy`
@@ -241,7 +291,13 @@ def objects_of(e, acc=None):
         d = e.__dict__.get("_duration", None)
         if d is not None:
             acc[id(d)] = d
+        m = e.__dict__.get("marks", None)
+        if m is not None:
+            acc[id(m)] = m
     else:
+        col = e.__dict__.get("colour", None)
+        if col is not None:
+            acc[id(col)] = col
         for c in e:
             objects_of(c, acc)
     return acc
@@ -258,8 +314,9 @@ def aliased(result, source):
     if not n:
         # the parts among each other: two parts must not hold one object either
         rs = result if isinstance(result, (list, tuple)) and not isinstance(result, (S, P)) else []
-        if any(isinstance(o, C) and getattr(o, "name", 0) >= 1000 for o in src.values()):
-            rs = []         # shared-reference stream: the receiver itself holds one leaf at several positions, so may its copy
+        if any((isinstance(o, C) and getattr(o, "name", 0) >= 1000) or
+               (isinstance(o, (S, P)) and isinstance(o.tag, str) and o.tag[1:].isdigit() and int(o.tag[1:]) >= 1000) for o in src.values()):
+            rs = []         # shared-reference stream: the receiver itself holds one leaf / container at several positions, so may its copy
         seen, twice = {}, 0
         for k, r in enumerate(rs):
             for i, o in objects_of(r).items():
@@ -332,13 +389,35 @@ def T(n):
     return Fraction(n, TICK)
 
 
+def coloured_ok(e):
+    """every Coloured sequence below e still carries its side attribute"""
+    if isinstance(e, C):
+        return True
+    if isinstance(e, Coloured) and getattr(e, "colour", None) != ["red"]:
+        return False
+    return all(coloured_ok(c) for c in e)
+
+
+KEEPS_VOICES = ("cut_out", "cut_off", "squash_in", "slide_in", "extend_until")      # (split_child_at wraps a leaf voice in a sequence)
+KEEPS_CLASS = KEEPS_VOICES + ("split_child_at", "remove_by", "tie_by", "tie_all", "slice", "pyslice", "mul", "gadd", "add", "seti", "deli", "set_tag", "del_tag")
+
+
 def apply_op(t, op):
     """Returns (result event, extra observations)."""
+    voices = [id(v) for v in t] if isinstance(t, P) else None
     r = apply_op1(t, op)
     _ROOTS.append(r[0])
     if op[0] in IN_PLACE and r[0] is not t:
         # the documented contract of the editing methods: they change the receiver and return it
         r = (r[0], r[1] + [["result-is-not-the-receiver", snap(t)]])
+    res = r[0]
+    if op[0] in KEEPS_VOICES and voices is not None and isinstance(res, P) and [id(v) for v in res] != voices:
+        # an in-place edit of a simultaneity edits its voices in place: whoever holds a voice sees the edit
+        r = (res, r[1] + [["result-is-not-the-receiver", ["voices-were-replaced-by-other-objects"]]])
+    if op[0] in KEEPS_CLASS and isinstance(res, (S, P)) and isinstance(t, (S, P)) and type(res) is not type(t):
+        r = (res, r[1] + [["result-is-not-the-receiver", ["class-" + type(res).__name__ + "-instead-of-" + type(t).__name__]]])
+    if isinstance(res, (S, P)) and not coloured_ok(res):
+        r = (res, r[1] + [["result-is-not-the-receiver", ["a-declared-side-attribute-was-lost"]]])
     return r
 
 
@@ -548,6 +627,12 @@ def run1(case):
         out = ["ok", ["parts"] + [snap(p) for p in parts]]
         if snap(t) != before:
             out.append(["recv-changed", snap(t)])
+        if isinstance(t, (S, P)):
+            # the parts are events of the receiver's class and carry its declared side attributes
+            if any(type(p) is not type(t) for p in parts):
+                out.append(["result-is-not-the-receiver", ["parts-of-class-" + "-".join(sorted({type(p).__name__ for p in parts})) + "-instead-of-" + type(t).__name__]])
+            elif not all(coloured_ok(p) for p in parts):
+                out.append(["result-is-not-the-receiver", ["a-declared-side-attribute-was-lost"]])
         return out + aliased(parts, t)
     if k == "get_tag":
         t = build(case[1])
